@@ -474,35 +474,43 @@ class CallMixin:
             ctx.spec = saved
             self.frames.pop()
 
-    def _quant(self, node, gi, is_all):
+    def _quant(self, node, gi, is_all, bound=None):
+        """bound: list of (var, range-condition) of enclosing symbolic generators (flattened into ONE quantifier
+        so that E-matching sees multi-patterns over all bound variables)"""
         ctx = self.ctx
+        bound = bound or []
         if gi == len(node.generators):
-            return ctx.zbool(ctx.truth(self.eval(node.elt)))
+            body = ctx.zbool(ctx.truth(self.eval(node.elt)))
+            if not bound:
+                return body
+            vs = [v for v, _ in bound]
+            conds = [c for _, cs in bound for c in cs]
+            if is_all:
+                return z3.ForAll(vs, z3.Implies(z3.And(*conds), body))
+            return z3.Exists(vs, z3.And(*conds, body))
         g = node.generators[gi]
         it = self.eval(g.iter)
         items = self.iter_items_concrete(it)
-
-        def conds_and_body():
-            conds = []
-            pushed = 0
-            try:
-                for c in g.ifs:
-                    t = ctx.zbool(ctx.truth(self.eval(c)))
-                    conds.append(t)
-                    ctx.guards.append(t)
-                    pushed += 1
-                body = self._quant(node, gi + 1, is_all)
-            finally:
-                for _ in range(pushed):
-                    ctx.guards.pop()
-            return conds, body
         if items is not None:
+            if bound:
+                raise Unsupported("concrete generator nested inside a symbolic one")
             parts = []
             for x in items:
                 self.push_scope()
                 try:
                     self.bind(g.target, x)
-                    conds, body = conds_and_body()
+                    conds = []
+                    pushed = 0
+                    try:
+                        for c in g.ifs:
+                            t = ctx.zbool(ctx.truth(self.eval(c)))
+                            conds.append(t)
+                            ctx.guards.append(t)
+                            pushed += 1
+                        body = self._quant(node, gi + 1, is_all)
+                    finally:
+                        for _ in range(pushed):
+                            ctx.guards.pop()
                     if is_all:
                         parts.append(z3.Implies(z3.And(*conds), body) if conds else body)
                     else:
@@ -512,20 +520,31 @@ class CallMixin:
             if is_all:
                 return z3.And(*parts) if parts else z3.BoolVal(True)
             return z3.Or(*parts) if parts else z3.BoolVal(False)
-        ln, at = self.iter_model(it)
         k = z3.Int(ctx.fresh_name("q"))
-        rng = z3.And(0 <= k, k < ctx.term(ln, INT))
+        if isinstance(it, RangeV) and it.step == 1:
+            # bind the variable to the value itself (not offset + index): patterns then match s[k] directly
+            rng = z3.And(ctx.term(it.a, INT) <= k, k < ctx.term(it.b, INT))
+            at = lambda kk: SV(INT, kk)
+        else:
+            ln, at = self.iter_model(it)
+            rng = z3.And(0 <= k, k < ctx.term(ln, INT))
         self.push_scope()
         ctx.guards.append(rng)
+        pushed = 1
         try:
             self.bind(g.target, at(k))
-            conds, body = conds_and_body()
+            conds = [rng]
+            for c in g.ifs:
+                t = ctx.zbool(ctx.truth(self.eval(c)))
+                conds.append(t)
+                ctx.guards.append(t)
+                pushed += 1
+            # guards only matter for obligations, which spec mode does not emit; keep them for merge()
+            return self._quant(node, gi + 1, is_all, bound + [(k, conds)])
         finally:
-            ctx.guards.pop()
+            for _ in range(pushed):
+                ctx.guards.pop()
             self.pop_scope()
-        if is_all:
-            return z3.ForAll([k], z3.Implies(z3.And(rng, *conds), body))
-        return z3.Exists([k], z3.And(rng, *conds, body))
 
     # ------------------------------------------------------------------ builtins
     def call_builtin(self, name, args, kwargs, node):
